@@ -153,6 +153,14 @@ def r1_acks(report, repo):
       return 'wrte-row: %d OKAYs for an enqueued WRTE' % len(oks)
     if not v['is_wrte'] and oks:
       return 'other-row: OKAY sent for a non-WRTE message'
+    sets = p.calls(name='self._set_or_check_remote_id')
+    if v['is_okay']:
+      if len(sets) != 1 or dotted(sets[0].args[0]) != emsg + '.arg0':
+        return ('okay-row: an OKAY dispatched by another stream\'s reader '
+                'must set / check the remote id (else the first WRTE that '
+                'follows cannot be acknowledged)')
+    elif sets:
+      return 'other-row: remote id touched for a non-OKAY message'
     puts = p.calls(name='self.message_queue.put')
     if len(puts) != 1 or dotted(puts[0].args[0]) != emsg:
       return 'queue-row: the message must be queued exactly once'
